@@ -196,3 +196,172 @@ func genLarge(g *hx.Gen) {
 	}
 	g.Note(fmt.Sprintf("large stream: %d histories with sets and argument lists of the sizes B-1..B+1 (thorough B-2..B+2) for B in 8..512", count))
 }
+
+// ---- asymmetric sizes: |small| : |large| from 1:2 to 1:256 for every binary operation in both
+// argument orders and for the Union method in both roles.  The large set is strided (stride 1, 2,
+// 3, 7) so that there is room between its elements; the small set is put together from atoms
+// placed relative to the large one: before its minimum, after its maximum, hits, misses between
+// two elements, a miss directly followed by the next element of the large set (hit after miss),
+// the first and the last element.
+func genAsym(g *hx.Gen) {
+	r := g.Rng
+	ratios := []int{2, 4, 8, 16, 32, 64, 128, 256}
+	smallSizes := []int{1, 2, 3, 6}
+	reps := 1
+	if g.Thorough() {
+		reps = 6
+	}
+	count := 0
+	for _, ratio := range ratios {
+		for _, ss := range smallSizes {
+			for mode := 0; mode < 8; mode++ {
+				for rep := 0; rep < reps; rep++ {
+					ln := ss * ratio
+					if ln > 640 {
+						ln = 640 - r.Intn(3)
+					}
+					ln += r.Range(-1, 1) // just below / at / above the exact ratio
+					if ln < 1 {
+						ln = 1
+					}
+					stride := []int{1, 2, 3, 7}[r.Intn(4)]
+					if mode == 3 || mode == 4 { // misses need room between elements
+						stride = []int{2, 3, 7}[r.Intn(3)]
+					}
+					off := r.Range(-5, 5)
+					if r.Chance(1, 8) {
+						off = int(^uint(0)>>1) - 8*ln - 1000
+					}
+					large := make([]int, ln)
+					for i := range large {
+						large[i] = off + i*stride
+					}
+					m := map[int]bool{}
+					atom := func(kind int) {
+						i := r.Intn(ln)
+						switch kind {
+						case 0: // before the minimum
+							m[large[0]-1-r.Intn(4)] = true
+						case 1: // after the maximum
+							m[large[ln-1]+1+r.Intn(4)] = true
+						case 2: // hit
+							m[large[i]] = true
+						case 3: // miss between two elements (or just outside when the stride is 1)
+							m[large[i]+1] = true
+						case 4: // miss, then the next element of the large set
+							m[large[i]-1] = true
+							m[large[i]] = true
+						case 5: // first and last element
+							m[large[0]] = true
+							m[large[ln-1]] = true
+						}
+					}
+					for tries := 0; len(m) < ss && tries < 50; tries++ {
+						switch mode {
+						case 0, 1, 2, 3, 4:
+							atom(mode)
+						case 5: // before the minimum, then the minimum itself
+							atom(0)
+							m[large[0]] = true
+						case 6: // the maximum, then beyond it
+							m[large[ln-1]] = true
+							atom(1)
+						default:
+							atom(r.Intn(6))
+						}
+					}
+					small := keys(m)
+					ls, ss2 := hx.Ints(large), hx.Ints(small)
+					var opsL, opsS []string // receiver = large resp. small
+					for _, c := range "UVIJZMWXYST" {
+						opsL = append(opsL, string(c)+":"+ss2)
+						opsS = append(opsS, string(c)+":"+ls)
+					}
+					opsL = append(opsL, "u:"+ss2)
+					opsS = append(opsS, "u:"+ls)
+					var sp []int
+					if r.Bool() {
+						sp = poisonCells(len(small) + 2)
+					}
+					g.Emit(seqCase(large, sp, opsL))
+					if r.Bool() {
+						sp = poisonCells(ln + len(small) + 2)
+					} else {
+						sp = poisonCells(r.Intn(3))
+					}
+					g.Emit(seqCase(small, sp, opsS))
+					count += 2
+				}
+			}
+		}
+	}
+	g.Note(fmt.Sprintf("asymmetric stream: %d histories, size ratios 1:2 .. 1:256 in both orders", count))
+}
+
+// ---- value boundaries x count boundaries: argument lists and sets whose values lie in the dense
+// universe [0, B] (B and 0 always among them) for B around the powers of two up to 256, with
+// counts around 8, 16, 32, 64 - where bitmap and counting fast paths would live - for every
+// constructor / variadic operation and, with two such sets, every binary operation.
+func genValueBounds(g *hx.Gen) {
+	r := g.Rng
+	bs := []int{7, 8, 15, 16, 31, 32, 63, 64, 65, 127, 128, 255, 256}
+	counts := []int{8, 9, 16, 17, 32, 33, 64, 65}
+	if g.Thorough() {
+		counts = []int{7, 8, 9, 10, 15, 16, 17, 31, 32, 33, 34, 63, 64, 65, 66, 129}
+	}
+	reps := g.Pick(2, 5)
+	n := 0
+	for _, b := range bs {
+		for _, c := range counts {
+			for rep := 0; rep < reps; rep++ {
+				lo := 0
+				if r.Chance(1, 6) {
+					lo = -1 // one negative value among otherwise small non-negative ones
+				}
+				draw := func(k int, distinct bool) []int {
+					xs := []int{b, lo}
+					seen := map[int]bool{b: true, lo: true}
+					for len(xs) < k {
+						v := r.Range(lo, b)
+						if distinct && seen[v] && len(seen) <= b-lo {
+							continue
+						}
+						seen[v] = true
+						xs = append(xs, v)
+					}
+					if r.Chance(1, 3) {
+						sort.Ints(xs)
+					} else {
+						shuffle(r, xs)
+					}
+					return xs[:k]
+				}
+				sub := func() []int { // a subset of [lo, b] that contains b
+					m := map[int]bool{b: true}
+					for i := r.Intn(c + 1); i > 0; i-- {
+						m[r.Range(lo, b)] = true
+					}
+					return keys(m)
+				}
+				xs, ys := draw(c, false), draw(c, c <= b-lo+1)
+				recv := sub()
+				if r.Chance(1, 3) {
+					recv = nil
+				}
+				ops := []string{"N:" + hx.Ints(xs), "N:" + hx.Ints(ys), "a:" + hx.Ints(xs), "a:" + hx.Ints(ys)}
+				bset := hx.Ints(sub())
+				for _, l := range "UVIJZMWXYST" {
+					ops = append(ops, string(l)+":"+bset)
+				}
+				ops = append(ops, "u:"+bset, "s:"+fmt.Sprint(b), "C:"+fmt.Sprint(b), "C:"+fmt.Sprint(b+1), "r:"+fmt.Sprint(b))
+				var sp []int
+				if r.Bool() {
+					sp = poisonCells(r.Range(1, c+4))
+				}
+				g.Emit(seqCase(recv, sp, ops))
+				n++
+			}
+		}
+	}
+	g.Note(fmt.Sprintf("value x count boundary stream: %d histories over [0,B], B in 7..256, counts 8..65", n))
+}
